@@ -91,6 +91,7 @@ NAME_FIELDS = ["short_day_names", "long_day_names", "short_month_names", "long_m
                "era:anno_persico", "era:bahai", "eranames:before_common"]  # fmt: skip
 
 _TRANSITIONS = {}  # zone id -> transition instants (ns since epoch) 1800..2100, read through the public API in a fork
+_HIST_PAIRS = []  # serial (warm-up, query) cases enumerated over years: year-boundary day conversions after the year was touched
 _DOUBLE = []  # (zone id, T1, T2): two transitions inside one 32-day cache period
 _SWEEPS = []  # systematic single-pre-emption cases (built in prepare)
 _POOL = None  # {"cal": {...}, ...} structured pool of ops
@@ -231,6 +232,18 @@ def do_op(op, env):
             return None, None
         zi = z.get_zone_interval(_inst(op[2]))
         return [z.id, z.get_utc_offset(_inst(op[2])).seconds, zi.name], (("cprov", op[1]), z)
+    if k == "dscan":
+        # ["dscan", calendar, first day number (days since 1970-01-01 ISO), count]: consecutive days converted into the calendar
+        cal = P.CalendarSystem.for_id(op[1])
+        base = P.LocalDate(1970, 1, 1)
+        out = []
+        for n in range(op[2], op[2] + op[3]):
+            try:
+                d = base.plus_days(n).with_calendar(cal)
+                out.append([d.year, d.month, d.day])
+            except Exception as e:  # noqa: BLE001
+                out.append(type(e).__name__)
+        return [zlib.crc32(json.dumps(out).encode()), out[0], out[-1]], None
     if k == "yscan":
         # ["yscan", calendar, first year, count]: year and month lengths of a run of years, as one answer
         cal = P.CalendarSystem.for_id(op[1])
@@ -1133,6 +1146,24 @@ def _zone_transitions(ids):
     return out
 
 
+def _year_starts(cal):
+    """Day numbers (since 1970-01-01 ISO) of the first day of years of a calendar, through the public API, in a fork."""
+    import pyoda_time as P
+
+    c = P.CalendarSystem.for_id(cal)
+    lo, hi = c.min_year, c.max_year
+    years = list(range(lo, hi + 1)) if hi - lo <= 1200 else sorted(random.Random(zlib.crc32(cal.encode())).sample(range(lo + 1, hi), 160))
+    iso = P.CalendarSystem.iso
+    epoch = P.LocalDate(1970, 1, 1)
+    out = {}
+    for y in years:
+        try:
+            out[y] = P.Period.days_between(epoch, P.LocalDate(y, 1, 1, c).with_calendar(iso))
+        except Exception:  # noqa: BLE001
+            pass
+    return out
+
+
 def _all_culture_names(_):
     from pyoda_time._compatibility._culture_info import CultureInfo
     from pyoda_time._compatibility._culture_types import CultureTypes
@@ -1162,11 +1193,34 @@ def prepare(tier, master_seed, workers):
                             _DOUBLE.append((zid, a, b))
     scale = 2.0 if tier == "thorough" else 1.0
     _POOL = build_pool(master_seed, scale)
+    # year-boundary histories: for every year of the small calendars and a sample of the others, touch the year, then convert
+    # the days around its first day (arguments are raw day numbers, so the cold answer knows nothing of the touch)
+    global _HIST_PAIRS
+    _HIST_PAIRS = []
+    hist_ops = []
+    cal_list = list(CAL_RANGE)
+    starts = bootstrap.parallel_map(_year_starts, cal_list, workers, 300)
+    hrng = random.Random(master_seed ^ 0x4157)
+    for cal, tab in zip(cal_list, starts):
+        if not isinstance(tab, dict) or "harness" in tab:
+            continue
+        ys = sorted(int(y) for y in tab)
+        if tier != "thorough" and len(ys) > 60:
+            keep = set(hrng.sample(ys, 60)) if len(ys) <= 1200 and len(ys) > 400 else set(hrng.sample(ys, 40))
+            if len(ys) > 400 and len(ys) <= 1200:
+                keep = set(ys[:: max(1, len(ys) // 330)])  # small calendars: every third year in quick, all in thorough
+            ys = [y for y in ys if y in keep]
+        for y in ys:
+            d0 = tab[str(y)] if str(y) in tab else tab[y]
+            warm = hrng.choice([["ylen", cal, y], ["date", cal, y, 1, 1], ["mlen", cal, y, 1]])
+            q = ["dscan", cal, d0 - 3, 45]
+            _HIST_PAIRS.append([warm, q])
+            hist_ops += [warm, q]
     n_pairs = {"quick": 60, "thorough": 500}.get(tier, 12)
     pairs = build_sweep_pairs(_POOL, master_seed, n_pairs)
     sweep_ops = [o for pr in pairs for o in pr["warm"] + [pr["a"], pr["b"]]]
     sweep_ops += [["ziu", o[1], o[2]] for o in sweep_ops if o[0] == "zi"]
-    table = cold_table(list(pool_ops(_POOL)) + sweep_ops, workers)
+    table = cold_table(list(pool_ops(_POOL)) + sweep_ops + hist_ops, workers)
     # second phase: parse ops built from cold formatting answers
     parse_ops = []
     for cname, ops in _POOL["text"].items():
@@ -1181,7 +1235,7 @@ def prepare(tier, master_seed, workers):
     _TABLE = table
     global _SWEEP_PAIRS
     _SWEEP_PAIRS, _SWEEPS, sweep_info = build_sweeps(_POOL, master_seed, n_pairs, 260 if tier != "thorough" else 900, 24 if tier != "thorough" else 100, workers)  # fmt: skip
-    info = {"sweep": sweep_info, "pool_ops": len(table), "cold_oracle_s": round(time.monotonic() - t0, 2), "cultures_in_icu": len(_ALL_CULTURES),
+    info = {"sweep": sweep_info, "year_boundary_history_cases": len(_HIST_PAIRS), "pool_ops": len(table), "cold_oracle_s": round(time.monotonic() - t0, 2), "cultures_in_icu": len(_ALL_CULTURES),
             "cold_exceptions": sum(1 for v in table.values() if isinstance(v, list) and v[:1] == ["EXC"])}  # fmt: skip
     return info
 
@@ -1211,6 +1265,11 @@ def gen_case(master_seed, k):
     if k < len(_SWEEPS):
         pi, i = _SWEEPS[k]
         return _sweep_spec(_SWEEP_PAIRS[pi], i, derive_seed(master_seed, PROP, k))
+    k2 = k - len(_SWEEPS)
+    if k2 < len(_HIST_PAIRS):
+        warm, q = _HIST_PAIRS[k2]
+        return {"prop": PROP, "seed": derive_seed(master_seed, PROP, k), "mode": "hist", "families": ["year boundary after touch"],
+                "threads": [[warm, q, q]], "strategy": {"kind": "serial"}, "prewarm": ["cal"]}  # fmt: skip
     return gen_run(derive_seed(master_seed, PROP, k))
 
 
@@ -1311,7 +1370,7 @@ def _prewarm(spec):
         P.DateTimeZone.utc  # noqa: B018
     if "cal" in w:
         for op in ops:
-            if op[0] in ("date", "ylen", "mlen", "fromdays", "dera", "calid", "eras", "erayear", "conv", "plusm", "yscan"):
+            if op[0] in ("date", "ylen", "mlen", "fromdays", "dera", "calid", "eras", "erayear", "conv", "plusm", "yscan", "dscan"):
                 try:
                     P.CalendarSystem.for_id(op[1])
                 except Exception:  # noqa: BLE001
@@ -1587,7 +1646,7 @@ def main(a, boot_info):
 
     t = TIERS[a.tier]
     info = prepare(a.tier, a.seed, a.workers)
-    nruns = (a.runs or t["runs"]) + len(_SWEEPS)
+    nruns = (a.runs or t["runs"]) + len(_SWEEPS) + len(_HIST_PAIRS)
     budget = a.budget or t["budget"]
     code, agg = runner.check_property(sys.modules[__name__], a.tier, a.seed, nruns, a.workers, budget, "exploration", RULE, ASSUMPTIONS,
                                       extra_cov={"bootstrap": boot_info, "oracle_pool": info}, wall_timeout=120.0)  # fmt: skip
